@@ -57,6 +57,15 @@ def merge(pid, spec, tier, seed, reports, wall, build_s, nproc, known):
         tname = cl.split("/", 1)[0]
         if tname in per_test and classes.get(cl, 0) == 0:
             floor_problems.append("required class %s never occurred" % cl)
+    # cases a timeout-bearing oracle could not judge because the machine was measurably busy (vf.LoadTolerant):
+    # never a pass of the oracle; too many of them make the whole run inconclusive
+    inconclusive = 0
+    for cl, n in classes.items():
+        if cl.endswith("/inconclusive_machine_load"):
+            inconclusive += n
+            tot = per_test.get(cl.split("/", 1)[0], {}).get("evaluations", 0)
+            if tot and n / tot > spec.get("max_inconclusive", 0.1):
+                floor_problems.append("%d of %d cases of %s were inconclusive because of machine load" % (n, tot, cl.split("/", 1)[0]))
     known_lines = []
     for k in known:
         if k.get("status") == "known" and known_hits.get(k["id"], 0) > 0:
@@ -74,6 +83,7 @@ def merge(pid, spec, tier, seed, reports, wall, build_s, nproc, known):
         "excluded_known": excluded,
         "known_findings_reproduced": known_hits,
         "build_s": round(build_s, 1),
+        "inconclusive_machine_load": inconclusive,
     }
     if spec.get("exhaustive_note"):
         cov["exhaustive_subspace"] = spec["exhaustive_note"]
